@@ -93,6 +93,16 @@ pub proof fn lemma_swap_remove_ms(s: Seq<SpacePoint>, i: int)
     }
     assert(a =~= b.insert(x));
 }
+// Vec::remove(i): what stays is s without position i (an order-preserving rewrite of the same step)
+pub proof fn lemma_remove_ms(s: Seq<SpacePoint>, i: int)
+    requires 0 <= i < s.len()
+    ensures ms(s) == ms(s.remove(i)).insert(s[i])
+{
+    broadcast use group_to_multiset_ensures, group_multiset_axioms;
+    to_multiset_remove(s, i);
+    assert(ms(s).count(s[i]) >= 1);
+    assert(ms(s) =~= ms(s.remove(i)).insert(s[i]));
+}
 pub open spec fn all_linked(cs: Seq<Vec<SpacePoint>>, d: Length) -> bool {
     forall|i: int| 0 <= i < cs.len() ==> linked((#[trigger] cs[i])@, d)
 }
